@@ -328,6 +328,7 @@ def literals():
 
     sk1, sk2 = 0x1234567890ABCDEF1234567890ABCDEF, 0x0FEDCBA0987654321
     out = {"sk1": sk1, "sk2": sk2, "pk1": MB.sk_to_pk(sk1), "pk2": MB.sk_to_pk(sk2), "pop1": MB.pop_prove(sk1)}
+    out["pk1neg"] = MB.g1_bytes(MB.E1.neg(MB.pk_point(sk1)))
     out["sigpk1:pop"] = MB.sign("pop", sk1, out["pk1"])
     out["sigpk1:basic"] = MB.sign("basic", sk1, out["pk1"])
     for s in SUITES:
@@ -797,3 +798,54 @@ def _o():
 def _o():
     M = I("py_ecc.optimized_bls12_381")
     return (M.pairing, [(M.FQ2([1, 1]), M.FQ2([2, 3]), M.FQ2.one()), M.G1], {})
+
+
+# ------------------------------------------------------------------ keys that cancel, identity keys, forged triples
+@op("FastAggregateVerify:cancelling-keys", 1)
+def _o():
+    return (I("py_ecc.bls").G2ProofOfPossession.FastAggregateVerify,
+            [[LIT["pk1"], LIT["pk1neg"]], b"msg one", b"\xc0" + b"\x00" * 95], {})
+
+
+@op("FastAggregateVerify:identity-key-second", 2)
+def _o():
+    return (I("py_ecc.bls").G2ProofOfPossession.FastAggregateVerify,
+            [[LIT["pk2"], b"\xc0" + b"\x00" * 47], b"msg one", LIT["sig2same:pop"]], {})
+
+
+@op("AggregateVerify:cancelling-keys:basic", 1)
+def _o():
+    return (I("py_ecc.bls").G2Basic.AggregateVerify,
+            [[LIT["pk1"], LIT["pk1neg"]], [b"msg one", b"msg two"], b"\xc0" + b"\x00" * 95], {})
+
+
+@op("subgroup_check:off-curve-triple-sharing-x-with-pk1", 1)
+def _o():
+    G = I("py_ecc.bls.g2_primitives")
+    M = I("py_ecc.optimized_bls12_381")
+    def f(pkb):
+        x, y = M.normalize(G.pubkey_to_G1(pkb))
+        out = []
+        for t in ((x, y + 1, M.FQ(1)), (x, y - 1, M.FQ(1))):
+            try:
+                out.append(bool(G.subgroup_check(t)))
+            except Exception as e:  # noqa: BLE001
+                out.append(type(e).__name__)
+        return out
+    return (f, [LIT["pk1"]], {})
+
+
+@op("subgroup_check:pk1-point-and-scaled", 1)
+def _o():
+    G = I("py_ecc.bls.g2_primitives")
+    M = I("py_ecc.optimized_bls12_381")
+    def f(pkb):
+        P = G.pubkey_to_G1(pkb)
+        return (G.subgroup_check(P), G.subgroup_check(tuple(c * 5 for c in P)))
+    return (f, [LIT["pk1"]], {})
+
+
+@op("hkdf_expand:bytes-arguments-raw-result", 0)
+def _o():
+    H = I("py_ecc.bls.hash")
+    return (H.hkdf_expand, [bytes(range(32)), b"info", 48], {})
